@@ -198,6 +198,61 @@ def getter_harness(a, g, nmax):
     return h
 
 
+def two_getters_harness(a, nmax, g1):
+    """multi-step on one handle: a first typed getter call (any kind, any digest) must not change what a second one returns"""
+    chk = a.chk
+
+    def h(P):
+        art, layers = build_archive(a, P, nmax)
+        g2 = KINDS[P.choose(len(KINDS))]
+        d1, d2 = z3.BitVec('d1', 64), z3.BitVec('d2', 64)
+        first = P.it.run_body(a.get[g1], [ref_to(art), ref_to(SymString('sha256:<first>', d1))])
+        if first.vname == 'Ok':
+            P.cover('first-call-returned')
+        res = P.it.run_body(a.get[g2], [ref_to(art), ref_to(SymString('sha256:<second>', d2))])
+        hits = [b_and(L['digest'] == d2) for L in layers if L['kind'] == g2]
+        e_ok = b_or(*hits) if hits else False
+
+        def witness(model):
+            case = archive_witness(chk, layers, model, requested_index(layers, model, d2))
+
+            def judge(r):
+                # the native op calls every typed getter for every digest on ONE handle: any answer that breaks the rule counts
+                if 'ok' not in r:
+                    return True
+                for idx in range(len(r['ok']['get'])):
+                    for g in KINDS:
+                        c2 = dict(case, request=idx)
+                        _, cands = native_expect(chk, r, c2, g)
+                        got = r['ok']['get'][idx].get(g)
+                        if got is None:
+                            continue
+                        if not cands:
+                            if 'err' not in got:
+                                return True
+                            continue
+                        if 'ok' not in got:
+                            return True
+                        full = MSG[g]
+                        if not any(chk.unhex(got['ok']['hex'], full) == chk.unhex(case['layers'][j]['hex'], full) and
+                                   got['ok']['annotations'] == case['layers'][j]['annotations'] for j in cands):
+                            return True
+                return False
+            kinds = [(L['kind'], L['content']) for L in layers]
+            return case, judge, f'{GETTER[g1]} then {GETTER[g2]} on one handle of an archive with layers {kinds}'
+        if res.vname == 'Ok':
+            P.cover('returned')
+            if not P.require('second-call:returned-only-for-a-stored-layer-of-this-kind', e_ok, witness):
+                return
+            msg, ann = deref(res.f[0]).f[0], deref(res.f[0]).f[1]
+            alts = [b_and(L['digest'] == d2, val_eq(msg, L['msg']), val_eq(ann, L['ann'])) for L in layers if L['kind'] == g2]
+            P.require('second-call:returns-what-was-stored', b_or(*alts) if alts else False, witness)
+        else:
+            P.cover('refused')
+            P.require('second-call:stored-layer-is-addressable-by-its-digest', b_not(e_ok), witness)
+    return h
+
+
 def lists_harness(a, nmax):
     chk = a.chk
 
@@ -500,6 +555,8 @@ def build(chk):
     for g in KINDS:
         chk.harness('archive:' + GETTER[g], getter_harness(a, g, nmax), regions=['returned', 'refused'], max_paths=60000, step_budget=3000000)
     chk.harness('archive:listing', lists_harness(a, nmax), regions=['some-layers', 'no-layers'], max_paths=20000, step_budget=3000000)
+    for g1 in KINDS:     # one job per kind of the first call, so the cores share the work
+        chk.harness(f'archive:two-getters-on-one-handle/first={GETTER[g1]}', two_getters_harness(a, 2, g1), regions=['returned', 'refused', 'first-call-returned'], max_paths=120000, step_budget=3000000)
     chk.harness('manifest', manifest_harness(a), regions=['accepted', 'refused'], max_paths=50)
     for k in KINDS:
         chk.harness('annotations:' + k, annotations_harness(a, k), regions=['unset-is-error', 'set-is-returned'], max_paths=4000)
